@@ -73,6 +73,16 @@ def run(prog, R):
         if ge:
             o = [const_of(a) for _, t in ge.calls() for a in t["args"] if a.get("k") == "const" and "str" in a]
             R.ob("C18.1-resolution-order", "environment variable QASM3_PATH", o == ["QASM3_PATH"], ge.at, f"{o}")
+    # the environment list keeps the order in which QASM3_PATH names the directories: split_paths -> collect, nothing
+    # that reorders, drops or merges entries in between
+    ORDERCH = ("::rev", "::sort", "::sort_by", "::sort_by_key", "::sort_unstable", "::sort_unstable_by", "::reverse", "::swap", "::retain", "::dedup", "::dedup_by_key", "::swap_remove", "::rotate_left", "::rotate_right",
+               "Vec::insert", "::pop", "::truncate", "::drain", "::split_off", "::filter", "::skip", "::take", "::step_by", "BTree", "HashSet", "HashMap", "BinaryHeap")
+    envfns = [k for k in prog.bodies if k.startswith(SF + "get_file_search_paths_from_env")]
+    if envfns:
+        cals = [c for k in envfns for c in [(prog.body(k).callee_of(t) or "") for _, t in prog.body(k).calls()]]
+        badc = sorted(set(c for c in cals if c.endswith(ORDERCH) or any(x in c for x in ("BTree", "HashSet", "HashMap", "BinaryHeap", "sort", "dedup"))))
+        okc = any(c.endswith("env::split_paths") for c in cals) and any(c.endswith("::collect") for c in cals) and not badc
+        R.ob("C18.1-resolution-order", "QASM3_PATH directories are kept in the order given", okc, prog.body(envfns[0]).at, f"calls {sorted(set(c.split('::')[-1] for c in cals))}" + (f"; order-changing: {badc}" if badc else ""))
     # ---- C18.2 lock-step
     pre = prog.body(SF + "parse_included_files::{closure#0}")
     s2s = [k for k in prog.bodies if k.startswith(S2S + "syntax_to_semantic") and "{closure" not in k]
@@ -198,6 +208,7 @@ def run(prog, R):
         R.ob("C18.5-stdgates-without-file", "stdgates.inc => Context::standard_library_gates, no file access", not bad5, ana.at, f"{bad5[:2]}")
     else:
         R.ob("ANCHOR", "include pre-pass / analyser", False)
+    R.premises(prog, "C18.2-in-place-premise", ["C06:C06.4-", "C07:C07.1-"], "an included file is analysed as if written in place: state that crosses the include boundary (pending annotations, open scopes) is handled by the same code as inside one file")
     # ---- C18.4 below-global include
     st = prog.body(S2S + "stmt_to_asg_stmt")
     if st:
